@@ -1171,14 +1171,19 @@ def propagate_attribute_aliases(trees: Dict[str, ast.Module]) -> int:
         for x in ast.walk(t):
             if isinstance(x, ast.FunctionDef):
                 store_and_keep(x)
-    for t in trees.values():
-        for x in ast.walk(t):
-            if isinstance(x, ast.FunctionDef):
-                do_function(x)
-    for t in trees.values():
-        for x in ast.walk(t):
-            if isinstance(x, ast.FunctionDef):
-                flow_function(x)
+    # an alias of an alias ( search = self._search; ghe = search.ghe ) becomes resolvable once the first one is: repeat while it helps
+    for _ in range(3):
+        before = done
+        for t in trees.values():
+            for x in ast.walk(t):
+                if isinstance(x, ast.FunctionDef):
+                    do_function(x)
+        for t in trees.values():
+            for x in ast.walk(t):
+                if isinstance(x, ast.FunctionDef):
+                    flow_function(x)
+        if done == before:
+            break
     return done
 
 
